@@ -72,6 +72,7 @@ func main() {
 
 func runWorker(ck *checks.Check, tier string, seed int64, w, n int, out, verif, scratch string) {
 	st := sim.NewStats()
+	st.Known = loadKnown(verif, ck.ID)
 	ctx := &checks.RunCtx{Seed: seed, Tier: tier, Stats: st, Verif: verif, Scratch: scratch}
 	units := ck.Units(tier)
 	cur := -1
@@ -87,6 +88,20 @@ func runWorker(ck *checks.Check, tier string, seed int64, w, n int, out, verif, 
 		ck.Run(ctx, u)
 	}
 	writeJSON(out, st)
+}
+
+func loadKnown(verif, id string) map[string]bool {
+	out := map[string]bool{}
+	var kf knownFile
+	if b, err := os.ReadFile(filepath.Join(verif, "known_findings.json")); err == nil {
+		json.Unmarshal(b, &kf)
+	}
+	for _, f := range kf.Findings {
+		if f.Status == "open" && f.Property == id {
+			out[f.Signature] = true
+		}
+	}
+	return out
 }
 
 func writeJSON(path string, v interface{}) {
@@ -204,6 +219,13 @@ func parent(ck *checks.Check, tier string, seed int64, verif, scratch string) in
 			newOrder = append(newOrder, v.Sig)
 		}
 	}
+	for k, n := range total.Counters {
+		if strings.HasPrefix(k, "known:") {
+			if sig := strings.TrimPrefix(k, "known:"); knownSeen[sig] < n {
+				knownSeen[sig] = n
+			}
+		}
+	}
 	sort.Strings(newOrder)
 	var ks []string
 	for k := range knownSeen {
@@ -309,6 +331,7 @@ func doReplay(ck *checks.Check, file, verif, scratch string) int {
 		return 2
 	}
 	st := sim.NewStats()
+	st.Known = map[string]bool{}
 	ck.Run(&checks.RunCtx{Seed: rp.Seed, Tier: rp.Tier, Stats: st, Verif: verif, Scratch: scratch, Verbose: true}, rp.Unit)
 	for _, v := range st.Violations {
 		fmt.Printf("VIOLATION property=%s replay=%s\n  signature: %s\n  %s\n", ck.ID, file, v.Sig, v.Msg)
